@@ -1014,9 +1014,61 @@ fn neighbouring_identifiers(rep: &mut Rep, idx: &mut u64) {
     }
 }
 
+/// The Maximum Packet Size in the server's CONNACK binds the client's packets, not the server's: well-formed packets from the
+/// server that are larger than it decode like any others.
+fn larger_than_the_servers_own_limit(rep: &mut Rep, idx: &mut u64) {
+    rep.note("inbound packets larger than the Maximum Packet Size the server announced for itself (20 / 64 / 1000): PUBLISH of 100 / 209 / 20 000 bytes, SUBACK and PUBACK with long reason strings: decoded and exposed as sent, run() goes on");
+    for m in [20u32, 64, 1000] {
+        for size in [100usize, 209, 2000, 20_000] {
+            let id = format!("beyond-own-limit:{m}:{size}");
+            *idx += 1;
+            if !rep.take(*idx, &id) {
+                continue;
+            }
+            let mut sim = Sim::new(rep.seed);
+            sim.cmd(Cmd::Connect(ConnSpec::default()));
+            sim.settle();
+            sim.feed_packet(&SPacket::Connack { session_present: false, reason: 0, props: vec![Prop::u32(39, m), Prop::u16(33, 10)] });
+            sim.settle();
+            sim.cmd(Cmd::Run);
+            sim.settle();
+            sim.parse_wire();
+            let mut r = Running { sim, used: 0 };
+            // "s" keeps the SUBSCRIBE under 20 bytes
+            let (sop, sid_pkt) = start(&mut r, OpSpec::Subscribe(SubSpec::simple("s")));
+            let long = "r".repeat(size);
+            r.sim.feed_packet(&SPacket::Suback { id: sid_pkt, props: vec![Prop::str(31, &long)], reasons: vec![0] });
+            r.sim.settle();
+            let sub_ok = matches!(&r.sim.ops[sop].out, Some(OpOut::Suback(Ok(s))) if s.reason_string.as_deref() == Some(long.as_str()));
+            let st = r.sim.take_stream(sop);
+            let payload: Vec<u8> = (0..size).map(|j| (j % 251) as u8).collect();
+            r.sim.feed_packet(&SPacket::Publish(rc::Publish { dup: false, qos: 0, retain: false, topic: "s".into(), id: None, props: vec![Prop::var(11, 1)], payload: payload.clone() }));
+            r.sim.settle();
+            let got = st.map(|st| {
+                r.sim.drain_stream(st);
+                r.sim.streams[st].items.iter().map(|m| m.payload.clone()).collect::<Vec<_>>()
+            });
+            rep.add("evaluations", 1);
+            rep.add("inbound_packets_beyond_the_servers_own_limit", 2);
+            rep.distinct(&("beyond-own-limit", m, size));
+            for p in r.sim.panics.clone() {
+                viol(rep, format!("C02/panic/{p}"), &id, format!("panic: {p}"), &r.sim);
+            }
+            if !sub_ok {
+                viol(rep, "C02/rejected/pkt=SUBACK/larger-than-the-servers-own-limit".into(), &id, format!("CONNACK announced Maximum Packet Size {m} (a limit for the client); a SUBACK of {} bytes was not exposed as sent: {:?}; run() = {:?}", size + 10, r.sim.ops[sop].out.as_ref().map(|o| o.brief()), r.sim.run_result()), &r.sim);
+            } else if got != Some(vec![payload]) || r.sim.run_result().is_some() {
+                viol(rep, "C02/rejected/pkt=PUBLISH/larger-than-the-servers-own-limit".into(), &id, format!("CONNACK announced Maximum Packet Size {m} (a limit for the client); an inbound PUBLISH with {size} bytes of payload was not yielded as sent; run() = {:?}", r.sim.run_result()), &r.sim);
+            } else {
+                rep.add("values_compared", 2);
+            }
+        }
+    }
+}
+
 pub fn run(rep: &mut Rep) {
     let mut idx = 70_000_000u64;
     neighbouring_identifiers(rep, &mut idx);
+    larger_than_the_servers_own_limit(rep, &mut idx);
     let mut idx = 0u64;
     connack_cases(rep, &mut idx);
     auth_cases(rep, &mut idx);
